@@ -64,7 +64,7 @@ def pool():
 def shutdown():
     global _pool
     if _pool is not None:
-        _pool.terminate()
+        _pool.close()
         _pool.join()
         _pool = None
 
